@@ -226,6 +226,7 @@ def check_flags(out, interp, cls, frow, getter, setter, nbytes, pos, fb):
         exp = C0
         for b in M:
             exp = g4.t_or(exp, S(b))
+        exp = g4.norm(exp)
         ok = ret is not None and ret.w == 1 and ret.bits[0] == exp
         out.append(Ob("flag", cls, "%s::%s(%s)" % (cls, frow["getter"], name), getter.loc, ok,
                       "returns wire bit(s) %s of the flags field" % bl if ok else
